@@ -759,6 +759,10 @@ pub fn run(tier: &str) -> i32 {
                                 ("index", index.to_string()),
                                 ("atoms", k.into_iter().collect::<Vec<_>>().join("+")),
                                 ("structure", c.p.structure()),
+                                // the 720-row table reaches size-gated evaluators: its failures are kept apart
+                                // from those of the 0-3 row tables, and name the predicate
+                                ("table", if w.t.len() >= 100 { "large".to_string() } else { "small".to_string() }),
+                                ("pred", if w.t.len() >= 100 { c.p.sql(s.qual) } else { "-".to_string() }),
                             ];
                             let key = sig.iter().map(|(a, b)| format!("{}={}", a, b)).collect::<Vec<_>>().join(";");
                             let order = wi * 64 + xi * 8 + ui;
@@ -774,7 +778,9 @@ pub fn run(tier: &str) -> i32 {
                                         check_case(&d2, s, c.p, &q2, &mut tmp).ok().flatten()
                                     });
                                     match again {
-                                        Some((l2, t2)) if l2 == law && t2 == text => {}
+                                        // the same law must fail again; the description may differ (GROUP BY
+                                        // output order follows a per-instance hash seed)
+                                        Some((l2, _)) if l2 == law => {}
                                         _ => same = false,
                                     }
                                 }
